@@ -13,10 +13,17 @@ model `absStep` of `extend_*`/`truncate`).
 Modelled is the repaired code (DESIGN §7 #2): `to_multi_int` without the `!is_empty()` guards and
 `to_multi_float64` with the `Empty` arm.
 
-Two points where the code does less than a literal reading of the statement are stated as explicit
-exceptions (and proved to be exceptions on witnesses): a text written with a minus sign is not
-accepted for an unsigned target (`"-0"`), and `truncate` leaves a single string (`Str`) alone even
-for limit 0.
+Two points where the code does less than the statement are stated as explicit exceptions, proved
+to be exceptions on witnesses, and recorded as known findings (the driver's oracle stays at
+statement strength and reports them):
+* `negative-zero-unsigned`: a zero written with a minus sign (`"-0"`) is refused for unsigned
+  targets although 0 is representable (`parse_neg_zero_unsigned`; `parse_complete` shows it is the
+  only such case);
+* `truncate-str-limit0`: `truncate(0)` leaves a `Str` with its item. The doc comment of `truncate`
+  reads "Shorten this value by removing trailing elements to fit the given limit. […] Nothing is
+  done if the value's cardinality is already lower than or equal to the limit." — it documents no
+  exception for `Str` (whose `multiplicity()` is 1), so this is a deviation, not documented
+  behaviour (`truncate_str_limit0`; `truncate_spec` holds for every other value).
 -/
 namespace Dicom.NumConv
 
